@@ -38,6 +38,14 @@ CHECKS = {
         "inputs (all clock/reset edge combinations, all i_f_data/i_d_data): outputs equal after settling, registers+outputs+edge history equal after the evaluation. No preconditions.",
    note="Trusted: CBMC+MiniSat, Verilator 5.006, vl2c rules. Sequence equivalence by induction over evaluations (harness state arbitrary and re-established).",
    technique="CBMC product (relational) harness on Verilator-generated code converted to C; replay on three natively Verilated models"),
+ "C13": dict(cat="proof", design="DESIGN.md §4 C13",
+   text="hextb.cpp's run() (prologue, loop condition, loop body) and handleSyscall() extracted to C over the Verilator-generated model (incl. generated "
+        "eval_initial/eval_settle): for every power-on state (all Verilated fields arbitrary within their widths, memory arbitrary) the RESET_END ticks of the reset "
+        "window (code constant, fully unwound with unwinding assertions) service a system call only from the start state with memory intact, change no memory word "
+        "(ghost index), end in pc=areg=breg=oreg=0, and the next rising edge releases reset and executes address 0.",
+   note="Trusted: CBMC+MiniSat, Verilator 5.006 (same generator options as the CMake build), vl2c/tbx rule lists, tick counter for VerilatedContext time. "
+        "Assumes the image's stack-pointer word is inside memory (only relevant when the first instruction is SVC). Remainder of the run: C03 per clock, C06 for the shim.",
+   technique="CBMC contract harness over extracted testbench loop + Verilator-generated C, all power-on states; replay through hextb.cpp's own run() on the native model"),
 }
 NA = {
  "C01": "compiler correctness over all X programs: needs an X semantics and a simulation proof over 3200 lines of STL C++ that CBMC cannot parse; no per-function contract expresses it (DESIGN §5)",
@@ -51,7 +59,6 @@ PENDING = {
  "C05": "claimed by design (DESIGN §4); check not built yet in this round",
  "C06": "claimed by design (DESIGN §4); check not built yet in this round",
  "C07": "claimed by design (DESIGN §4); check not built yet in this round",
- "C13": "claimed by design (DESIGN §4); check not built yet in this round",
  "C15": "claimed by design (DESIGN §4); check not built yet in this round",
  "C17": "claimed by design (DESIGN §4); check not built yet in this round",
 }
